@@ -32,7 +32,20 @@ type concOuter struct {
 	Bytes []byte
 }
 
+// named container types (each takes the named-type conversion path of Fold)
+type cuAttrs map[string]interface{}
+type cuIDs []int
+type cuArr [2]int
+type cuStrs []string
+type cuM2 map[string]int
+
 var concInputs = []interface{}{
+	cuAttrs{"a": int64(1), "b": cuIDs{1, 2}},
+	cuIDs{3, 4, 5},
+	cuArr{6, 7},
+	cuStrs{"x", "y"},
+	cuM2{"k": 1},
+	[]interface{}{cuIDs{1}, cuStrs{"s"}, cuArr{1, 2}, cuM2{"z": 9}, cuAttrs{"q": cuStrs{"w"}}},
 	map[string]interface{}{"x": int64(1), "y": []interface{}{"a", nil, true, 2.5}},
 	concOuter{Name: "n", In: concInner{A: -7, C: map[string]uint16{"k": 65535}}, Ptr: &concInner{A: 1, B: []string{"é", ""}},
 		List: []concInner{{A: 2}, {A: 3, B: []string{"z"}}}, Any: map[string]interface{}{"q": uint64(18446744073709551615)}, F: 3.25, Bytes: []byte{0, 255}},
